@@ -276,6 +276,21 @@ def builtins(ctx, rng):
                     ctx.violation("failing-input", f"arguments of unknown function {fn} are not preserved", {"expression": s}, str(got), s)
                     return
         ctx.nontrivial(("unknown-fn", fn))
+    # several unknown functions in ONE expression, incl. names that differ only in letter case, nested in each other: each call
+    # keeps its own name (the set of function names of the result is the set written) and its own arguments
+    for s, want in (("T(x) + t(y)", {"T", "t"}), ("t(y) + T(x)", {"T", "t"}), ("G(g(x) + 1)", {"G", "g"}), ("g(G(x) + 1) * G(y)", {"G", "g"}),
+                    ("foo(x) - Foo(x) + FOO(x)", {"foo", "Foo", "FOO"}), ("cost(x) / Cost(y)", {"cost", "Cost"}), ("f(g(x), G(f(y)))", {"f", "g", "G"})):
+        ctx.stats["evaluations"] += 1
+        try:
+            got = B.as_expression(s)
+        except Exception as e:
+            ctx.violation("failing-input", f"expression with several unknown functions is rejected ({type(e).__name__})", {"expression": s}, str(e)[:200], "parsed")
+            return
+        heads = E.sympy_heads(got)
+        if heads != want:
+            ctx.violation("failing-input", f"the unknown functions of {s!r} are not kept apart: result calls {sorted(heads)}", {"expression": s}, str(got), sorted(want))
+            return
+        ctx.nontrivial(("unknown-fns", s))
 
 
 def gen_tree(rng, depth):
